@@ -4,6 +4,7 @@ package c20
 
 import (
 	"fmt"
+	"gitlab.com/gomidi/midi/v2/zverif/noise"
 	"sort"
 	"testing"
 
@@ -129,6 +130,9 @@ func buildSong(c Case) *sequencer.Song {
 			bar.Events = append(bar.Events, &sequencer.Event{TrackNo: e.Track, Pos: uint8(e.Pos), Duration: uint8(e.Dur), Message: smf.Message(append([]byte{}, e.Msg...))})
 		}
 		s.AddBar(bar)
+		if i < 3 {
+			noise.Between() // other songs are created and extended while this one is being built
+		}
 	}
 	return s
 }
@@ -262,7 +266,12 @@ func run(c Case) (res ev.Result) {
 
 	// ---- the library
 	var f0, f1 smf.SMF
-	if p := ev.TryTimeout(ev.Watchdog, func() { f0 = buildSong(c).ToSMF0(); f1 = buildSong(c).ToSMF1() }); p != "" {
+	if p := ev.TryTimeout(ev.Watchdog, func() {
+		// both songs exist before either is exported
+		s0, s1 := buildSong(c), buildSong(c)
+		noise.Between()
+		f0, f1 = s0.ToSMF0(), s1.ToSMF1()
+	}); p != "" {
 		res.Violation = "export: " + p
 		return
 	}
